@@ -28,6 +28,7 @@ const (
 	stateAdded queuedState = iota
 	stateFetching
 	stateFetched
+	stateFailed
 )
 
 type replicator struct {
@@ -168,6 +169,27 @@ func (r *replicator) Load(ctx context.Context, entries []ipfslog.Entry) {
 
 	// process and wait the whole queue to complete
 	r.muProcess.Lock()
+
+	// give another chance to the hashes that could not be fetched earlier
+	for hash, state := range r.tasks {
+		if state != stateFailed {
+			continue
+		}
+
+		if exist := r.AddHashToQueue(hash); exist {
+			continue
+		}
+
+		wg.Add(1)
+		go func() {
+			if err := r.processOne(ctx, &wg); err != nil {
+				r.logger.Warn("unable to process entry", zap.Error(err))
+			}
+
+			wg.Done()
+		}()
+	}
+
 	for i, entry := range entries {
 		if exist := r.AddEntryToQueue(entry); exist {
 			continue
@@ -206,13 +228,14 @@ func (r *replicator) processOne(ctx context.Context, wg *sync.WaitGroup) error {
 	}
 	verifhook.Point("replicator.after_dequeue", e.GetHash().String())
 
-	if err := r.processItems(ctx, wg, e); err != nil {
+	err = r.processItems(ctx, wg, e)
+	if err != nil {
 		r.logger.Warn("process item ended", zap.Error(err))
 	}
 
 	// mark this process has done
 	verifhook.Point("replicator.before_done", e.GetHash().String())
-	r.processEntryDone(e)
+	r.processEntryDone(e, err == nil)
 	return nil
 }
 
@@ -288,6 +311,10 @@ func (r *replicator) processHash(ctx context.Context, item processItem) ([]cid.C
 		return nil, fmt.Errorf("unable to fetch log: %w", err)
 	}
 
+	if l.Len() == 0 {
+		return nil, fmt.Errorf("unable to fetch entry %s", hash.String())
+	}
+
 	r.muBuffer.Lock()
 	r.buffer = append(r.buffer, l)
 	r.muBuffer.Unlock()
@@ -338,13 +365,18 @@ func (r *replicator) waitForProcessSlot(ctx context.Context) (e processItem, err
 	return
 }
 
-func (r *replicator) processEntryDone(item processItem) {
+func (r *replicator) processEntryDone(item processItem, fetched bool) {
 	r.muProcess.Lock()
 
 	r.taskInProgress--
 
 	// remove hash from queued list
-	r.tasks[item.GetHash()] = stateFetched
+	if fetched {
+		r.tasks[item.GetHash()] = stateFetched
+	} else {
+		// nothing was fetched: keep the hash eligible for a later request
+		r.tasks[item.GetHash()] = stateFailed
+	}
 
 	// if there no more task to proceed, trigger idle method
 	if r.isIdle() {
@@ -375,8 +407,8 @@ func (r *replicator) shouldExclude(hash cid.Cid) (exist bool) {
 // AddHashToQueue is not thread safe
 func (r *replicator) AddHashToQueue(hash cid.Cid) (exist bool) {
 	_, inLog := r.store.OpLog().Get(hash)
-	_, queued := r.tasks[hash]
-	if exist = queued || inLog; exist {
+	state, queued := r.tasks[hash]
+	if exist = (queued && state != stateFailed) || inLog; exist {
 		return
 	}
 
@@ -390,8 +422,8 @@ func (r *replicator) AddHashToQueue(hash cid.Cid) (exist bool) {
 func (r *replicator) AddEntryToQueue(entry iface.IPFSLogEntry) (exist bool) {
 	hash := entry.GetHash()
 	_, inLog := r.store.OpLog().Get(hash)
-	_, queued := r.tasks[hash]
-	if exist = queued || inLog; exist {
+	state, queued := r.tasks[hash]
+	if exist = (queued && state != stateFailed) || inLog; exist {
 		return
 	}
 
